@@ -181,6 +181,161 @@ def classify(sites):
     return sorted(tree), sorted(binds), sorted(token)
 
 
+MOD_MUT = MUT | {'cache_clear'}
+MUTABLE_CTORS = {'dict', 'list', 'set', 'defaultdict', 'OrderedDict', 'deque', 'Counter', 'WeakValueDictionary',
+                 'WeakKeyDictionary', 'Lock', 'RLock', 'local'}
+MEMO_DECORATORS = {'cache', 'lru_cache', 'cached_property'}
+
+
+def _is_mutable_value(v) -> bool:
+    if isinstance(v, (ast.List, ast.Dict, ast.Set, ast.ListComp, ast.DictComp, ast.SetComp)):
+        return True
+    if isinstance(v, ast.Call):
+        f = v.func
+        nm = f.id if isinstance(f, ast.Name) else (f.attr if isinstance(f, ast.Attribute) else '')
+        return nm in MUTABLE_CTORS
+    return False
+
+
+def scan_module_state(repo: Path):
+    """write sites, INSIDE functions, to state that outlives a call: names bound at module level (`global X =`,
+    `X[...] =`, `X.update()` ...), class attributes (`cls.a[...] =`, `ClassName.a =`, `self.a[...] =` where `a` is a
+    class-level mutable), attributes of imported modules (`sys.modules[...]`), plus memoising decorators and mutable
+    default arguments.  -> sorted list of (where, file, function, site)"""
+    root = repo / 'elementpath'
+    out = set()
+    trees = {str(p.relative_to(repo)): ast.parse(p.read_text()) for p in sorted(root.rglob('*.py'))}
+    class_mut = set()
+    for t in trees.values():
+        for n in ast.walk(t):
+            if isinstance(n, ast.ClassDef):
+                for b in n.body:
+                    pairs = [(x, b.value) for x in b.targets] if isinstance(b, ast.Assign) else \
+                        [(b.target, b.value)] if isinstance(b, ast.AnnAssign) and b.value is not None else []
+                    for x, v in pairs:
+                        if isinstance(x, ast.Name) and _is_mutable_value(v):
+                            class_mut.add(x.id)
+    for f, t in trees.items():
+        modnames, classes, imported = set(), set(), set()
+        for b in t.body:
+            if isinstance(b, ast.Assign):
+                for x in b.targets:
+                    modnames.update(y.id for y in ast.walk(x) if isinstance(y, ast.Name))
+            elif isinstance(b, (ast.AnnAssign, ast.AugAssign)) and isinstance(b.target, ast.Name):
+                modnames.add(b.target.id)
+            elif isinstance(b, ast.ClassDef):
+                classes.add(b.name)
+            elif isinstance(b, (ast.FunctionDef, ast.AsyncFunctionDef)):
+                modnames.add(b.name)
+            elif isinstance(b, ast.Import):
+                imported.update((a.asname or a.name).split('.')[0] for a in b.names)
+
+        def scan_func(fn, stack, enclosing):
+            qual = '.'.join(stack)
+            a = fn.args
+            local = {x.arg for x in a.args + a.kwonlyargs + a.posonlyargs}
+            local |= ({a.vararg.arg} if a.vararg else set()) | ({a.kwarg.arg} if a.kwarg else set())
+            for d in fn.decorator_list:
+                dn = d.func if isinstance(d, ast.Call) else d
+                nm = dn.id if isinstance(dn, ast.Name) else (dn.attr if isinstance(dn, ast.Attribute) else '')
+                if nm in MEMO_DECORATORS:
+                    out.add(('memo-decorator', f, qual, '@' + nm))
+            defaults = [x for x in list(a.defaults) + [k for k in a.kw_defaults if k is not None] if _is_mutable_value(x)]
+            if defaults:
+                out.add(('mutable-default', f, qual, 'mutable default argument'))
+            globs, nodes, inner = set(), [], []
+
+            def walk(n):
+                for c in ast.iter_child_nodes(n):
+                    if isinstance(c, (ast.FunctionDef, ast.AsyncFunctionDef, ast.ClassDef)):
+                        local.add(c.name)
+                        inner.append(c)
+                        continue
+                    if isinstance(c, ast.Lambda):
+                        continue
+                    nodes.append(c)
+                    walk(c)
+            walk(fn)
+            for n in nodes:
+                if isinstance(n, ast.Global):
+                    globs.update(n.names)
+            for n in nodes:
+                if isinstance(n, ast.Name) and isinstance(n.ctx, ast.Store) and n.id not in globs:
+                    local.add(n.id)
+                elif isinstance(n, ast.ExceptHandler) and n.name:
+                    local.add(n.name)
+                elif isinstance(n, (ast.Import, ast.ImportFrom)):
+                    local.update((al.asname or al.name).split('.')[0] for al in n.names)
+            shadow = local | enclosing
+
+            def rec(kind, recv, op):
+                b = _base_name(recv)
+                text = ast.unparse(recv)
+                where = None
+                if b == 'cls' or text.startswith(('self.__class__', 'type(self)')):
+                    where = 'class'
+                elif b in classes and b not in shadow:
+                    where = 'class'
+                elif b in modnames and b not in shadow:
+                    where = 'module'
+                elif b in imported and b not in shadow:
+                    where = 'imported-module'
+                elif b == 'self' and kind != 'attr':
+                    m = re.match(r'self\.([A-Za-z_0-9]+)', text)
+                    if m and m.group(1) in class_mut:
+                        where = 'class-via-self'
+                if where:
+                    out.add((where, f, qual, detail(kind, text, op)))
+
+            def tgt(t, how):
+                if isinstance(t, (ast.Tuple, ast.List)):
+                    for x in t.elts:
+                        tgt(x, how)
+                elif isinstance(t, ast.Starred):
+                    tgt(t.value, how)
+                elif isinstance(t, ast.Attribute):
+                    rec('attr', t.value, t.attr)
+                elif isinstance(t, ast.Subscript):
+                    rec('item', t.value, how)
+                elif isinstance(t, ast.Name) and t.id in globs:
+                    out.add(('module', f, qual, f'global {t.id} ='))
+            for n in nodes:
+                if isinstance(n, ast.Assign):
+                    for t_ in n.targets:
+                        tgt(t_, '[]=')
+                elif isinstance(n, ast.AugAssign):
+                    tgt(n.target, '[]=')
+                elif isinstance(n, ast.AnnAssign) and n.value is not None:
+                    tgt(n.target, '[]=')
+                elif isinstance(n, ast.Delete):
+                    for t_ in n.targets:
+                        tgt(t_, 'del')
+                elif isinstance(n, (ast.For, ast.AsyncFor)):
+                    tgt(n.target, '[]=')
+                elif isinstance(n, ast.Call):
+                    fu = n.func
+                    if isinstance(fu, ast.Attribute) and fu.attr in MOD_MUT:
+                        rec('call', fu.value, fu.attr)
+                    elif isinstance(fu, ast.Name) and fu.id in ('setattr', 'delattr') and n.args:
+                        rec('call', n.args[0], fu.id)
+            for c in inner:
+                if isinstance(c, ast.ClassDef):
+                    visit(c, stack + [c.name], shadow)
+                else:
+                    scan_func(c, stack + [c.name], shadow)
+
+        def visit(node, stack, enclosing):
+            for c in ast.iter_child_nodes(node):
+                if isinstance(c, ast.ClassDef):
+                    visit(c, stack + [c.name], enclosing)
+                elif isinstance(c, (ast.FunctionDef, ast.AsyncFunctionDef)):
+                    scan_func(c, stack + [c.name], enclosing)
+                else:
+                    visit(c, stack, enclosing)
+        visit(t, [], set())
+    return sorted(out)
+
+
 def lean_str(s: str) -> str:
     return '"' + s.replace('\\', '\\\\').replace('"', '\\"').replace('\n', ' ') + '"'
 
@@ -199,13 +354,18 @@ def emit(repo: Path, lean_dir: Path) -> dict:
     lines += ['', '/-- (file, function, site): state written on `self` in evaluation-time code of token classes -/',
               'def tokenWrites : List (String × String × String) := [']
     lines.append(',\n'.join('  (' + ', '.join(lean_str(x) for x in s) + ')' for s in token) + ']')
+    module = scan_module_state(repo)
+    lines += ['', '/-- (where, file, function, site): writes, inside functions, to state that outlives the call — module-level names,',
+              'class attributes, attributes of imported modules; memoising decorators; mutable default arguments -/',
+              'def moduleWrites : List (String × String × String × String) := [']
+    lines.append(',\n'.join('  (' + ', '.join(lean_str(x) for x in s) + ')' for s in module) + ']')
     lines += ['', 'end EPV.Gen.C05', '']
     text = '\n'.join(lines)
     gen = lean_dir / 'EPV' / 'Gen' / 'C05Sites.lean'
     gen.parent.mkdir(exist_ok=True)
     if not gen.exists() or gen.read_text() != text:
         gen.write_text(text)
-    return {'tree': tree, 'binds': binds, 'token': token}
+    return {'tree': tree, 'binds': binds, 'token': token, 'module': module}
 
 
 if __name__ == '__main__':
